@@ -124,10 +124,81 @@ pub fn is_pair_op(name: &str) -> bool {
 pub trait PairOps<P: PT, B> {
     fn pair_op(&mut self, other: &mut B, ctx: &Ctx, op: &str, qa: &P, qb: &P) -> Value;
     fn pair_eq(&self, other: &B) -> Value;
+    /// C13: run the _mut operation, keep every yielded item alive, then write through the mutable
+    /// references of the k-th item (k = 0: of all items).  Returns the number of items.
+    fn pair_write(&mut self, other: &mut B, op: &str, qa: &P, qb: &P, k: usize) -> Option<usize>;
+}
+
+/// generic body of pair_write
+pub fn write_mut_op<'a, P: PT, L, R>(
+    op: &str,
+    va: &mut TrieViewMut<'a, P, L>,
+    vb: TrieViewMut<'a, P, R>,
+    k: usize,
+    fl: &dyn Fn(&mut L),
+    fr: &dyn Fn(&mut R),
+) -> usize {
+    let sel = |j: usize| k == 0 || k == j + 1;
+    match op {
+        "UnionMut" => {
+            let items: Vec<(&P, Option<&mut L>, Option<&mut R>)> = va.union_mut(vb).take(LIM).collect();
+            let n = items.len();
+            for (j, (_, l, r)) in items.into_iter().enumerate() {
+                if sel(j) {
+                    if let Some(l) = l {
+                        fl(l);
+                    }
+                    if let Some(r) = r {
+                        fr(r);
+                    }
+                }
+            }
+            n
+        }
+        "InterMut" => {
+            let items: Vec<(&P, &mut L, &mut R)> = va.intersection_mut(vb).take(LIM).collect();
+            let n = items.len();
+            for (j, (_, l, r)) in items.into_iter().enumerate() {
+                if sel(j) {
+                    fl(l);
+                    fr(r);
+                }
+            }
+            n
+        }
+        "DiffMut" => {
+            let items: Vec<_> = va.difference_mut(&vb).take(LIM).collect();
+            let n = items.len();
+            for (j, d) in items.into_iter().enumerate() {
+                if sel(j) {
+                    fl(d.value);
+                }
+            }
+            n
+        }
+        "CovDiffMut" => {
+            let items: Vec<(&P, &mut L)> = va.covering_difference_mut(&vb).take(LIM).collect();
+            let n = items.len();
+            for (j, (_, l)) in items.into_iter().enumerate() {
+                if sel(j) {
+                    fl(l);
+                }
+            }
+            n
+        }
+        other => panic!("unknown mutable pair op {other}"),
+    }
+}
+pub fn flip_i32(v: &mut i32) {
+    *v = crate::model::flip(*v);
+}
+pub fn flip_unit(_: &mut ()) {}
+pub fn flip_str(v: &mut String) {
+    *v = crate::model::flip(v.parse().unwrap()).to_string();
 }
 
 macro_rules! impl_pair {
-    ($A:ty, $va:expr, $B:ty, $vb:expr, $eq:expr) => {
+    ($A:ty, $va:expr, $B:ty, $vb:expr, $eq:expr, $fl:expr, $fr:expr) => {
         impl<P: PT> PairOps<P, $B> for $A {
             fn pair_op(&mut self, other: &mut $B, ctx: &Ctx, op: &str, qa: &P, qb: &P) -> Value {
                 let vl = $va;
@@ -148,6 +219,12 @@ macro_rules! impl_pair {
                 let f: fn(&$A, &$B) -> Value = $eq;
                 f(self, other)
             }
+            fn pair_write(&mut self, other: &mut $B, op: &str, qa: &P, qb: &P, k: usize) -> Option<usize> {
+                let (Some(mut a), Some(b)) = (self.view_mut_at(qa.clone()), other.view_mut_at(qb.clone())) else {
+                    return None;
+                };
+                Some(write_mut_op(op, &mut a, b, k, &$fl, &$fr))
+            }
         }
     };
 }
@@ -161,10 +238,10 @@ fn eq_same<T: PartialEq>(a: &T, b: &T) -> Value {
     }
 }
 
-impl_pair!(PrefixMap<P, i32>, |v: &i32| *v, PrefixMap<P, i32>, |v: &i32| *v, |a, b| eq_same(a, b));
-impl_pair!(PrefixSet<P>, |_: &()| 1, PrefixSet<P>, |_: &()| 1, |a, b| eq_same(a, b));
-impl_pair!(PrefixMap<P, i32>, |v: &i32| *v, PrefixSet<P>, |_: &()| 1, |_, _| json!(["NA"]));
-impl_pair!(PrefixSet<P>, |_: &()| 1, PrefixMap<P, i32>, |v: &i32| *v, |_, _| json!(["NA"]));
+impl_pair!(PrefixMap<P, i32>, |v: &i32| *v, PrefixMap<P, i32>, |v: &i32| *v, |a, b| eq_same(a, b), flip_i32, flip_i32);
+impl_pair!(PrefixSet<P>, |_: &()| 1, PrefixSet<P>, |_: &()| 1, |a, b| eq_same(a, b), flip_unit, flip_unit);
+impl_pair!(PrefixMap<P, i32>, |v: &i32| *v, PrefixSet<P>, |_: &()| 1, |_, _| json!(["NA"]), flip_i32, flip_unit);
+impl_pair!(PrefixSet<P>, |_: &()| 1, PrefixMap<P, i32>, |v: &i32| *v, |_, _| json!(["NA"]), flip_unit, flip_i32);
 // a second value type on the right-hand side (String), to exercise L != R
 impl<P: PT> PairOps<P, PrefixMap<P, String>> for PrefixMap<P, i32> {
     fn pair_op(&mut self, other: &mut PrefixMap<P, String>, ctx: &Ctx, op: &str, qa: &P, qb: &P) -> Value {
@@ -184,6 +261,12 @@ impl<P: PT> PairOps<P, PrefixMap<P, String>> for PrefixMap<P, i32> {
     }
     fn pair_eq(&self, _other: &PrefixMap<P, String>) -> Value {
         json!(["NA"])
+    }
+    fn pair_write(&mut self, other: &mut PrefixMap<P, String>, op: &str, qa: &P, qb: &P, k: usize) -> Option<usize> {
+        let (Some(mut a), Some(b)) = (self.view_mut_at(qa.clone()), other.view_mut_at(qb.clone())) else {
+            return None;
+        };
+        Some(write_mut_op(op, &mut a, b, k, &flip_i32, &flip_str))
     }
 }
 
@@ -219,6 +302,7 @@ impl<P: PT, C: Coll<P>> FromHist<P> for C {
     }
 }
 /// PrefixMap<P, String> built from the same history (values rendered as strings)
+#[derive(Clone)]
 pub struct StrMap<P>(pub PrefixMap<P, String>);
 impl<P: PT> FromHist<P> for StrMap<P> {
     fn from_hist(h: &Value, ctx: &Ctx) -> Self {
@@ -254,6 +338,9 @@ impl<P: PT> PairOps<P, StrMap<P>> for PrefixMap<P, i32> {
     }
     fn pair_eq(&self, _other: &StrMap<P>) -> Value {
         json!(["NA"])
+    }
+    fn pair_write(&mut self, other: &mut StrMap<P>, op: &str, qa: &P, qb: &P, k: usize) -> Option<usize> {
+        self.pair_write(&mut other.0, op, qa, qb, k)
     }
 }
 
@@ -349,8 +436,8 @@ fn norm_tree_values(t: &Value) -> Value {
 
 pub fn replay_pairs<P: PT, A, B>(input: &mut dyn BufRead, ctx: &Ctx, a_set: bool, b_set: bool, max_mismatch: usize, rep: &mut PairReport)
 where
-    A: FromHist<P> + PairOps<P, B>,
-    B: FromHist<P>,
+    A: FromHist<P> + PairOps<P, B> + Clone,
+    B: FromHist<P> + Clone,
 {
     let mut cache: HashMap<String, Option<(A, B)>> = HashMap::new();
     let mut pre: HashMap<String, (Value, Value)> = HashMap::new();
@@ -389,7 +476,17 @@ where
         };
         let e = &row["e"];
         let op = e["a"].as_str().unwrap();
-        let out = if op == "Eq" {
+        let out = if op == "PairWrite" {
+            let qa = ctx.dec::<P>(&e["qa"]);
+            let qb = ctx.dec::<P>(&e["qb"]);
+            let mop = e["op"].as_str().unwrap().to_string();
+            let k = e["k"].as_u64().unwrap_or(0) as usize;
+            let (mut a2, mut b2) = (a.clone(), b.clone());
+            guarded(|| match a2.pair_write(&mut b2, &mop, &qa, &qb, k) {
+                Some(n) => json!([{"n": n, "ta": a2.tree_of(ctx), "tb": b2.tree_of(ctx)}]),
+                None => json!([]),
+            })
+        } else if op == "Eq" {
             let r = a.pair_eq(b);
             if r == json!(["NA"]) {
                 rep.skipped += 1;
@@ -404,7 +501,13 @@ where
         rep.executed += 1;
         *rep.per_action.entry(op.to_string()).or_default() += 1;
         let mut exp = ctx.norm(&row["r"]);
-        if (a_set || b_set) && op != "Eq" {
+        if op == "PairWrite" {
+            if let Some(x) = exp.get(0).cloned() {
+                let ta = if a_set { norm_tree_values(&ctx.norm_tree(&x["ta"])) } else { ctx.norm_tree(&x["ta"]) };
+                let tb = if b_set { norm_tree_values(&ctx.norm_tree(&x["tb"])) } else { ctx.norm_tree(&x["tb"]) };
+                exp = json!([{"n": x["n"], "ta": ta, "tb": tb}]);
+            }
+        } else if (a_set || b_set) && op != "Eq" {
             if let Some(inner) = exp.get(0).cloned() {
                 exp = json!([norm_set_values(&inner, a_set, b_set)]);
             }
